@@ -94,6 +94,9 @@ type stringOptionalStats struct {
 	max    string
 	nils int64
 	maxDef uint8
+	// seen is true once a non-null value has been added, any string
+	// (including nilOptString) is a legal value.
+	seen bool
 }
 
 func newStringOptionalStats(d uint8) *stringOptionalStats {
@@ -111,20 +114,21 @@ func (s *stringOptionalStats) add(vals []string, defs []uint8) {
 			s.nils++
 		} else {
 			val := vals[i]
-			if s.min == nilOptString {
+			if !s.seen {
 				s.min = val
 			} else {
 				if val < s.min {
 					s.min = val
 				}
 			}
-			if s.max == nilOptString {
+			if !s.seen {
 				s.max = val
 			} else {
 				if val > s.max {
 					s.max = val
 				}
 			}
+			s.seen = true
 			i++
 		}
 	}
@@ -139,14 +143,14 @@ func (s *stringOptionalStats) DistinctCount() *int64 {
 }
 
 func (s *stringOptionalStats) Min() []byte {
-	if s.min == nilOptString {
+	if !s.seen {
 		return nil
 	}
 	return []byte(s.min)
 }
 
 func (s *stringOptionalStats) Max() []byte {
-	if s.max == nilOptString {
+	if !s.seen {
 		return nil
 	}
 	return []byte(s.max)
